@@ -1,11 +1,9 @@
 From Coq Require Import List ZArith Bool Reals Lra Lia.
-From ML Require Import Ops Vec NP VecR MatR Mahalanobis MahalanobisR NPFacts C01Proof.
+From ML Require Import Ops Vec NP VecR MatR Mahalanobis MahalanobisR NPFacts C01Proof C02Shape.
 From MLgen Require Import Src_query.
 Import ListNotations.
 Open Scope R_scope.
 
-Notation M_src := (@Src_query.get_mahalanobis_matrix ROps).
-Notation transform_src := (@Src_query.transform ROps).
 Notation metric_src := (@Src_query.metric_fun ROps).
 
 Lemma C02_proof :
@@ -42,14 +40,11 @@ Proof.
   - intros u v Hu Hv. rewrite src_metric_fun_eq, metric_fun_sq_eq, src_mahalanobis_eq.
     apply (sqdist_quadform k d); auto.
   - intros. rewrite !src_metric_fun_eq. apply metric_fun_squared.
-  - intros X i Hi. rewrite src_transform_eq. apply transform_rows; auto.
-  - rewrite src_transform_eq. apply (transform_shape k d); auto.
-  - rewrite src_transform_eq. apply (transform_shape k d); auto.
-  - rewrite src_mahalanobis_eq. apply mahalanobis_wfm; auto.
-  - rewrite src_mahalanobis_eq. apply mahalanobis_wfm; auto.
-  - intros i j Hi Hj. rewrite src_mahalanobis_eq.
-    apply (symop_entrywise d); auto.
-    + apply mahalanobis_wfm; auto.
-    + apply mahalanobis_sym; auto.
-  - intros x Hx. rewrite src_mahalanobis_eq. apply mahalanobis_psd; auto.
+  - apply (C02_shape k d L HL).
+  - apply (C02_shape k d L HL).
+  - apply (C02_shape k d L HL).
+  - apply (C02_shape k d L HL).
+  - apply (C02_shape k d L HL).
+  - apply (C02_shape k d L HL).
+  - apply (C02_shape k d L HL).
 Qed.
